@@ -53,7 +53,7 @@ from fpy2.transform import ConstFold, CopyPropagate, DeadCodeEliminate
 NSHARDS = 64
 BATCH = 40
 SLICES = 8                    # the quick tier adds 1/SLICES of the next size, chosen by the seed
-CALL_TIMEOUT = 2.0            # CPU seconds; three orders of magnitude above a normal call (< 1 ms)
+CALL_TIMEOUT = 1.0            # CPU seconds; three orders of magnitude above a normal call (< 1 ms)
 TRANSFORM_TIMEOUT = 10.0      # CPU seconds; a normal transformation takes a few ms
 
 SWITCHES = ('enable_const_fold', 'enable_const_fold_context', 'enable_const_fold_op',
@@ -333,6 +333,23 @@ def _lit_kind(v) -> str:
     return 'number'
 
 
+def _shared_var_nodes(ast) -> set:
+    """ids of `Var` nodes that occur at more than one place of the tree (an identity-keyed analysis
+    can hold only one fact for such a node)."""
+    from fpy2.ast import DefaultVisitor
+    seen, shared = set(), set()
+
+    class V(DefaultVisitor):
+        def _visit_var(self, e, ctx):
+            (shared if id(e) in seen else seen).add(id(e))
+
+        def _visit_call(self, e, ctx):
+            super()._visit_call(e, ctx)
+
+    V()._visit_function(ast, None)
+    return shared
+
+
 def _responsible(ref, got, variant_outcome) -> bool:
     """A single rewrite is held responsible when it alone changes what the program returns, or makes it
     fail the way the fully transformed program fails (a variant that merely fails to compile because a
@@ -356,8 +373,12 @@ def _diag_copy_prop(fn, before, args, ref, got):
                 and isinstance(d.site.expr, Var) and len(du.uses[d]) > 0):
             prop[d] = d.site.expr
 
-    def hazard(d, stmt):
+    shared = _shared_var_nodes(before)
+
+    def hazard(d, stmt, e):
         """Is the source of the copy `x = y` still the same definition of y where x is used?"""
+        if id(e) in shared:
+            return 'use-node-shared-by-several-sites'
         src = d.site.expr
         d1 = du.find_def_from_use(src)
         if isinstance(stmt, WhileStmt):
@@ -399,8 +420,8 @@ def _diag_copy_prop(fn, before, args, ref, got):
         ast_k = one.apply()
         if one.hit is None:
             break
-        _e, d, stmt = one.hit
-        hz = hazard(d, stmt)
+        e, d, stmt = one.hit
+        hz = hazard(d, stmt, e)
         every.append(hz)
         if _responsible(ref, got, call(fn.with_ast(ast_k), args)):
             alone.append(hz)
@@ -447,9 +468,13 @@ def _diag_const_fold(fn, before, kw, args, ref, got):
 
     ESCAPING = ('Call', 'ListExpr', 'TupleExpr', 'IfExpr')
 
+    shared = _shared_var_nodes(before)
+
     def classify(e, parent):
         val = pe.by_expr[e]
         old = type(e).__name__
+        if old == 'Var' and id(e) in shared:
+            return (f'{old}->{_lit_kind(val)}-literal', 'use-node-shared-by-several-sites')
         if _has_list(val):
             if old != 'Var':
                 hz = 'list-expression-replaced-by-literal'
@@ -468,16 +493,22 @@ def _diag_const_fold(fn, before, kw, args, ref, got):
             hz = 'scalar-operation-evaluated-statically'
         return (f'{old}->{_lit_kind(val)}-literal', hz)
 
-    alone = set()
+    alone, every = set(), set()
     for k in range(400):
         one = One(k)
         ast_k = one.apply()
         if one.hit is None:
             break
+        cls = classify(*one.hit)
+        every.add(cls)
         if _responsible(ref, got, call(fn.with_ast(ast_k), args)):
-            alone.add(classify(*one.hit))
+            alone.add(cls)
     if alone:
         return [{'rewrite': rw, 'hazard': hz} for rw, hz in sorted(alone)]
+    # no fold suffices alone (e.g. two calls each handed a fresh literal): name the folds that touch lists
+    risky = sorted(c for c in every if 'list' in c[1] or 'shared' in c[1])
+    if risky:
+        return [{'rewrite': rw, 'hazard': hz} for rw, hz in risky]
     return [{'rewrite': 'fold (only several together)', 'hazard': 'undetermined'}]
 
 
@@ -527,16 +558,39 @@ def _find_calls(e, acc):
 
 
 def _used_defs_feeding_unused_merges(ast) -> bool:
-    """Does some definition that is read somewhere feed (only) a merge that nobody reads?"""
+    """Does some definition that is read somewhere feed a merge that nobody reads -- now, or once the
+    plainly unread assignments are gone (the pass iterates)?"""
     from fpy2.analysis import AssignDef, DefineUse, PhiDef
-    du = DefineUse.analyze(ast)
-    for d in du.defs:
-        if isinstance(d, PhiDef) and len(du.uses[d]) == 0 and not any(
-                isinstance(x, PhiDef) for x in du.successors[d]):
-            for idx in (d.lhs, d.rhs):
-                arg = du.defs[idx]
-                if isinstance(arg, AssignDef) and len(du.uses[arg]) > 0:
-                    return True
+    from fpy2.ast import Assign, DefaultTransformVisitor, NamedId, PassStmt, StmtBlock
+
+    for _ in range(8):
+        du = DefineUse.analyze(ast)
+        for d in du.defs:
+            if isinstance(d, PhiDef) and len(du.uses[d]) == 0 and not any(
+                    isinstance(x, PhiDef) for x in du.successors[d]):
+                for idx in (d.lhs, d.rhs):
+                    arg = du.defs[idx]
+                    if isinstance(arg, AssignDef) and len(du.uses[arg]) > 0:
+                        return True
+        dead = set()
+        for d in du.defs:
+            if (isinstance(d, AssignDef) and isinstance(d.site, Assign) and isinstance(d.site.target, NamedId)
+                    and len(du.uses[d]) == 0 and not du.successors[d]):
+                dead.add(id(d.site))
+        if not dead:
+            return False
+
+        class Drop(DefaultTransformVisitor):
+            def _visit_block(self, block, ctx):
+                stmts = []
+                for stmt in block.stmts:
+                    if id(stmt) in dead:
+                        continue
+                    s, _ = self._visit_statement(stmt, ctx)
+                    stmts.append(s)
+                return StmtBlock(stmts or [PassStmt(None)]), ctx
+
+        ast = Drop()._visit_function(ast, None)
     return False
 
 
@@ -546,17 +600,24 @@ def _code_follows_constant_branch_that_returns(ast) -> bool:
     from fpy2.ast import BoolVal, DefaultVisitor, If1Stmt, IfStmt, ReturnStmt
     found = []
 
+    def taken(stmt):
+        if isinstance(stmt, (If1Stmt, IfStmt)) and isinstance(stmt.cond, BoolVal):
+            if isinstance(stmt, If1Stmt):
+                return stmt.body if stmt.cond.val else None
+            return stmt.ift if stmt.cond.val else stmt.iff
+        return None
+
+    def always_returns(block) -> bool:
+        if block is None or not block.stmts:
+            return False
+        last = block.stmts[-1]
+        return isinstance(last, ReturnStmt) or always_returns(taken(last))
+
     class V(DefaultVisitor):
         def _visit_block(self, block, ctx):
             for i, stmt in enumerate(block.stmts):
-                if i + 1 < len(block.stmts) and isinstance(stmt, (If1Stmt, IfStmt)) \
-                        and isinstance(stmt.cond, BoolVal):
-                    if isinstance(stmt, If1Stmt):
-                        body = stmt.body if stmt.cond.val else None
-                    else:
-                        body = stmt.ift if stmt.cond.val else stmt.iff
-                    if body is not None and body.stmts and isinstance(body.stmts[-1], ReturnStmt):
-                        found.append(stmt)
+                if i + 1 < len(block.stmts) and always_returns(taken(stmt)):
+                    found.append(stmt)
             super()._visit_block(block, ctx)
 
     V()._visit_function(ast, None)
@@ -601,16 +662,27 @@ def _diag_dead_code(fn, before, after, args, ref, got):
         callees = _find_calls(stmt.expr, [])
         if callees:
             kinds = sorted({_callee_write_kind(c) for c in callees})
-            return (f'delete-{what}-with-call', 'callee-writes-' + '+'.join(kinds))
+            return (f'delete-{what}-with-call', 'callee-writes-' + '+'.join(kinds) + via_merge(stmt))
         hz = 'right-side-has-no-call'
         try:
-            from fpy2.ast import NamedId
             if isinstance(stmt, Assign) and isinstance(stmt.target, NamedId):
                 if len(du.uses[du.find_def_from_site(stmt.target, stmt)]) > 0:
                     hz = 'deleted-definition-still-has-uses'
         except Exception:  # noqa: BLE001
             pass
-        return (f'delete-{what}', hz)
+        return (f'delete-{what}', hz + via_merge(stmt))
+
+    def via_merge(stmt) -> str:
+        """The pass only considers a definition that feeds a merge when it drops the merge."""
+        try:
+            from fpy2.analysis import PhiDef
+            if isinstance(stmt, Assign) and isinstance(stmt.target, NamedId):
+                d = du.find_def_from_site(stmt.target, stmt)
+                if any(isinstance(x, PhiDef) for x in du.successors[d]):
+                    return ' (definition feeds a merge)'
+        except Exception:  # noqa: BLE001
+            pass
+        return ''
 
     def is_read(stmt) -> bool:
         """Does the definition made by this statement have a reader?"""
@@ -637,6 +709,10 @@ def _diag_dead_code(fn, before, after, args, ref, got):
         gone = lb.count(h) - la.count(h)
         if gone <= 0:
             continue
+        if ' = ' in h and isinstance(items[0][1], Assign) and not isinstance(items[0][1].target, NamedId):
+            rhs = ' = ' + h.split(' = ', 1)[1]
+            if sum(1 for ln in la if ln.endswith(rhs)) >= lb.count(h):
+                continue                   # kept with some targets scrubbed to `_`, not removed
         items = sorted(items, key=lambda it: (is_read(it[1]), it[0]))
         removed.extend(items[:gone])
     removed.sort(key=lambda it: it[0])
@@ -647,7 +723,7 @@ def _diag_dead_code(fn, before, after, args, ref, got):
         if not isinstance(stmt, (Assign, EffectStmt)):
             continue                       # deleting a compound statement alone is not what the pass did
         cls = classify(stmt)
-        if cls[1].startswith('callee-writes-') and cls[1] != 'callee-writes-nothing':
+        if cls[1].startswith('callee-writes-') and not cls[1].startswith('callee-writes-nothing'):
             removed_calls.add(cls)
         if _responsible(ref, got, call(fn.with_ast(ast_k), args)):
             alone.add(cls)
@@ -672,18 +748,29 @@ def _diag_cycle(exc: _Cycle) -> dict:
     name, ast = idle[0]
     hz = 'n/a'
     if name == 'CopyPropagate':
+        # the pass reports a change whenever some copy `x = y` has a use; why did rewriting change nothing?
         du = DefineUse.analyze(ast)
+        shared = _shared_var_nodes(ast)
         kinds = set()
         for d in du.defs:
             if (isinstance(d, AssignDef) and isinstance(d.site, Assign) and isinstance(d.site.target, Id)
                     and isinstance(d.site.expr, Var) and len(du.uses[d]) > 0):
                 if d.site.expr.name == d.name:
                     kinds.add('self-copy')
-                elif any(isinstance(u, IndexedAssign) for u in du.uses[d]):
-                    kinds.add('copy-is-index-assigned')
+                elif not any(isinstance(u, Var) for u in du.uses[d]):
+                    kinds.add('copy-is-index-assigned' if any(isinstance(u, IndexedAssign) for u in du.uses[d])
+                              else 'copy-has-no-rewritable-use')
+                elif shared:
+                    kinds.add('use-node-shared-by-several-sites')
                 else:
                     kinds.add('other-copy')
-        hz = '+'.join(sorted(kinds)) or 'no-copy'
+        for k in ('copy-is-index-assigned', 'self-copy', 'use-node-shared-by-several-sites',
+                  'copy-has-no-rewritable-use', 'other-copy'):
+            if k in kinds:
+                hz = k        # one cause is named even when several copies keep the loop alive
+                break
+        else:
+            hz = 'no-copy'
     return {'pass': name, 'rewrite': 'reports-a-change-but-returns-an-equivalent-program', 'hazard': hz}
 
 
